@@ -56,6 +56,24 @@ func isFieldAddrOf(v ssa.Value, field string) bool {
 	return f == field
 }
 
+// isTableOf: v is the decoder's table itself (&d.c), or a private copy built in a local variable whose address is then
+// stored into the decoder's field (copy on write: c := *d.c; c[…] = …; d.c = &c).
+func isTableOf(v ssa.Value, field string) bool {
+	if isFieldAddrOf(v, field) {
+		return true
+	}
+	al, ok := v.(*ssa.Alloc)
+	if !ok {
+		return false
+	}
+	for _, r := range *al.Referrers() {
+		if st, ok := r.(*ssa.Store); ok && st.Val == ssa.Value(al) && isFieldAddrOf(st.Addr, field) {
+			return true
+		}
+	}
+	return false
+}
+
 func constOr(v ssa.Value, def int64) (int64, bool) {
 	if v == nil {
 		return def, true
@@ -92,7 +110,7 @@ func ruleTeletextNational(p *Prog, l *Ledger, tier string) {
 			case *ssa.Store:
 				// d.c[T[k]] = subset[k]
 				dst, ok := t.Addr.(*ssa.IndexAddr)
-				if !ok || !isFieldAddrOf(dst.X, "c") {
+				if !ok || !isTableOf(dst.X, "c") {
 					continue
 				}
 				ld, ok := t.Val.(*ssa.UnOp)
